@@ -193,7 +193,10 @@ def run(ctx):
         'translated into per-channel functions over Q, numpy element-wise arithmetic read as the arithmetic of one channel, '
         'db2lin abstract; the constructor (argsort + indexing of every array), pch getter/setter, select_channels, __add__, '
         'demuxed/muxed_spectral_information, the dB views, Transceiver._calc_snr/update_snr and utils.snr_sum are matched '
-        'statement by statement against templates) is trusted')
+        'statement by statement against templates; Multiband_amplifier.__call__ / Edfa.__call__ (templates of pygen_c07), '
+        'Roadm / Edfa (+ noise_profile) / Fiber / RamanFiber .propagate (whole-body templates of pygen_c06 / c04 / c03), '
+        'Fused.propagate, Transceiver.__call__ and the __call__ wrappers are template-matched and the primitives each body '
+        'applies are extracted into g_program_<kind>) is trusted')
     ctx.rule = ('random designed networks (meshes, ROADM-less lines, multiband C+L, Raman on/off; every amplifier model of '
                 'the shipped libraries; fused sites, connector / padding / VOA losses; mixed-rate launched spectra) propagated '
                 'under a tracer: per element the logged primitive updates must be an instance of the kind\'s program and their '
